@@ -33,7 +33,7 @@ var All = map[string]func(*Ctx){
 		}
 		c.loopVarCapture("C01.loop-capture", func(f *ssa.Function) bool { return issuers[f] })
 	}, withExplanation(C05)),
-	"C02": seq(C02, (*Ctx).c12Recovery, (*Ctx).c12SMS, (*Ctx).c01Pending, func(c *Ctx) {
+	"C02": seq(C02, (*Ctx).c12Recovery, (*Ctx).c12SMS, (*Ctx).c01Pending, (*Ctx).c01Hijack, func(c *Ctx) {
 		c.beforeHandlersIssueNothing("C02.before-no-issue")
 		c.localizeFallback("C02.status-text")
 		c.halfAuthUpgradeGated("C02.halfauth-upgrade")
@@ -94,8 +94,8 @@ var All = map[string]func(*Ctx){
 		c.afterHandlersUnconditional("C09.after-unconditional")
 		c.delAllQueued("C09.delall-queued")
 		c.configVerbatim("C09.config-verbatim", "ExpireAfter")
-	}),
-	"C10": seq(C10, func(c *Ctx) {
+	}, borrow(C10, "C10.delall-contract", "C09.delall-contract", func(o Obligation) bool { return o.Rule == "C10.delall-contract" })),
+	"C10": seq(C10, (*Ctx).flushDiscipline, func(c *Ctx) {
 		c.delAllQueued("C10.delall-queued")
 		c.zeroValueInvoke("C10.zero-value", func(f *ssa.Function) bool { return pkgOf(f) == "ab/logout" })
 	}),
@@ -170,6 +170,7 @@ var All = map[string]func(*Ctx){
 		c.assertAfterErrCheck("C18.assert-after-check")
 		c.nilResultUse("C18.nil-result")
 		c.noCredentialRestore("C18.no-restore")
+		c.deferredStorageError("C18.defer-err")
 	}, borrow(C05, "C05.supersede", "C18.mail-after-save", func(o Obligation) bool { return o.Rule == "C05.supersede" })),
 	"C19": seq(C19, (*Ctx).hasherPassThrough),
 	"C20": seq(C20, func(c *Ctx) {
